@@ -278,6 +278,50 @@ type upath struct {
 	RetAll map[ssa.Value][]ssa.Value
 	Loop   bool            // the path ends where it would re-enter a block it already visited (only with cutLoops)
 	LoopTo *ssa.BasicBlock // that block
+	Frames []uframe        // one per helper call entered on the path: which stretch of Instrs is the helper's body
+}
+
+// uframe: the instructions Instrs[Start..End] are the body of the helper called by Call (End < 0: still open).
+type uframe struct {
+	Call       *ssa.Call
+	Start, End int
+}
+
+// valueAt resolves v as seen by the instruction at index idx of the path: a helper parameter is the argument of
+// the call whose body contains idx (a helper called twice on one path has two frames).
+func (p *upath) valueAt(v ssa.Value, idx int) ssa.Value {
+	for i := 0; i < 16; i++ {
+		if prm, ok := v.(*ssa.Parameter); ok {
+			found := false
+			for k := len(p.Frames) - 1; k >= 0; k-- {
+				fr := p.Frames[k]
+				if fr.Call.Call.StaticCallee() != prm.Parent() || fr.Start > idx || (fr.End >= 0 && idx > fr.End) {
+					continue
+				}
+				for j, q := range prm.Parent().Params {
+					if q == prm && j < len(fr.Call.Call.Args) {
+						v, idx, found = fr.Call.Call.Args[j], fr.Start-1, true
+					}
+				}
+				break
+			}
+			if found {
+				continue
+			}
+			return v
+		}
+		r := p.resolve(v)
+		if ph, ok := r.(*ssa.Phi); ok {
+			if e := p.phi(ph); e != nil {
+				r = e
+			}
+		}
+		if r == v {
+			return v
+		}
+		v = r
+	}
+	return v
 }
 
 // resolve chases helper parameters to arguments and helper calls to returned values.
@@ -348,7 +392,8 @@ func enumPathsOpt(f *ssa.Function, limit int, cutLoops bool) ([]upath, bool) {
 	var run func(p ipos, on map[*ssa.BasicBlock]bool, stack []frame)
 	snapshot := func() upath {
 		c := upath{Instrs: append([]ssa.Instruction(nil), cur.Instrs...), Conds: append([]fact(nil), cur.Conds...),
-			Arg: map[ssa.Value]ssa.Value{}, Ret: map[ssa.Value]ssa.Value{}, RetAll: map[ssa.Value][]ssa.Value{}}
+			Arg: map[ssa.Value]ssa.Value{}, Ret: map[ssa.Value]ssa.Value{}, RetAll: map[ssa.Value][]ssa.Value{},
+			Frames: append([]uframe(nil), cur.Frames...)}
 		for k, v := range cur.Arg {
 			c.Arg[k] = v
 		}
@@ -408,7 +453,18 @@ func enumPathsOpt(f *ssa.Function, limit int, cutLoops bool) ([]upath, bool) {
 					if len(rs) >= 1 {
 						cur.Ret[top.call] = rs[0]
 					}
+					closed := -1
+					for k := len(cur.Frames) - 1; k >= 0; k-- {
+						if cur.Frames[k].Call == top.call && cur.Frames[k].End < 0 {
+							cur.Frames[k].End = len(cur.Instrs) - 1
+							closed = k
+							break
+						}
+					}
 					run(posAfter(top.call), top.on, stack[:len(stack)-1])
+					if closed >= 0 && closed < len(cur.Frames) {
+						cur.Frames[closed].End = -1
+					}
 					if hadRet {
 						cur.Ret[top.call] = oldRet
 					} else {
@@ -446,7 +502,10 @@ func enumPathsOpt(f *ssa.Function, limit int, cutLoops bool) ([]upath, bool) {
 								cur.Arg[prm] = x.Call.Args[k]
 							}
 						}
+						nFr := len(cur.Frames)
+						cur.Frames = append(cur.Frames, uframe{Call: x, Start: len(cur.Instrs), End: -1})
 						run(entryPos(h), map[*ssa.BasicBlock]bool{}, append(append([]frame{}, stack...), frame{x, on}))
+						cur.Frames = cur.Frames[:nFr]
 						for _, prm := range h.Params {
 							if ov, had := old[prm]; had {
 								cur.Arg[prm] = ov
@@ -928,5 +987,46 @@ func originsAll(v ssa.Value) []ssa.Value {
 		out = append(out, o)
 	}
 	rec(v, 0)
+	return out
+}
+
+// returnedValuesU: the values f can return as result i, looking through results that are themselves
+// results of private helpers (return h(x) / v, ok := h(x); return v).
+func returnedValuesU(f *ssa.Function, i int) []ssa.Value {
+	var out []ssa.Value
+	seen := map[ssa.Value]bool{}
+	var expand func(v ssa.Value, d int)
+	expand = func(v ssa.Value, d int) {
+		for _, e := range phiLeaves(v) {
+			if seen[e] {
+				continue
+			}
+			seen[e] = true
+			if d < unitDepth {
+				if call, ok := e.(*ssa.Call); ok {
+					if h := helperCallee(call); h != nil && h.Signature.Results().Len() == 1 {
+						for _, rv := range returnedValues(h, 0) {
+							expand(rv, d+1)
+						}
+						continue
+					}
+				}
+				if ex, ok := e.(*ssa.Extract); ok {
+					if call, ok := ex.Tuple.(*ssa.Call); ok {
+						if h := helperCallee(call); h != nil {
+							for _, rv := range returnedValues(h, ex.Index) {
+								expand(rv, d+1)
+							}
+							continue
+						}
+					}
+				}
+			}
+			out = append(out, e)
+		}
+	}
+	for _, v := range returnedValues(f, i) {
+		expand(v, 0)
+	}
 	return out
 }
